@@ -136,6 +136,8 @@ def stepLine (d : DSt) (ws : List String) : DSt × List String :=
     | none => (d, ["bad-op", "--"])
   | ["epoll-fail"] => doOp d (.armFail .epollCtl) false (post := ["ok"])
   | ["alloc-fail-off"] => doOp d .disarm false (post := ["ok"])
+  | ["defaults"] => if !d.started then (d, ["bad-op", "--"]) else
+      (d, [s!"defaults limit={d.s.cfg.limit} pool={Mhd.Gen.Limits.defaultPoolSize}", "--"])
   | ["mark", x] => (d, [s!"mark {x}", "--"])
   | ["tick", _] => (d, ["ok", "--"])
   | ["stop"] => doOp d .stop false (post := ["stopped"])
